@@ -51,8 +51,8 @@ SKELETONS = {
 
 
 # ------------------------------------------------------------------ seam 1: graphs
-def graphs_with_first(n, maxdeg, nb0):
-    """all labelled graphs on n nodes, 1 <= degree <= maxdeg, in which node 0 has exactly neighbour set nb0"""
+def graphs_with_first(n, maxdeg, nb0, mindeg=1):
+    """all labelled graphs on n nodes, mindeg <= degree <= maxdeg, in which node 0 has exactly neighbour set nb0"""
     edges = [(i, j) for i in range(1, n) for j in range(i + 1, n)]
     deg = [0] * n
     adj = [[] for _ in range(n)]
@@ -70,12 +70,12 @@ def graphs_with_first(n, maxdeg, nb0):
 
     def rec(k):
         if k == m:
-            if min(deg) >= 1:
+            if min(deg) >= mindeg:
                 yield adj
             return
         i, j = edges[k]
         # skip edge k
-        if not ((lastpos[i] == k and deg[i] == 0) or (lastpos[j] == k and deg[j] == 0)):
+        if mindeg == 0 or not ((lastpos[i] == k and deg[i] == 0) or (lastpos[j] == k and deg[j] == 0)):
             yield from rec(k + 1)
         if deg[i] < maxdeg and deg[j] < maxdeg:
             adj[i].append(j)
@@ -393,6 +393,15 @@ def plan(tier, seed):
         for k in (1, 2, 3):
             for nb0 in itertools.combinations(others, k):
                 tasks.append(("matching/all-graphs-n<=8", ("graphs", n, nb0, thorough)))
+    ni = 7 if thorough else 6
+    scopes.append({"name": "matching/with-isolated-nodes", "n": "1..%d" % ni, "degree": "0..3",
+                   "desc": "every labelled graph incl. nodes without edges (an aromatic atom that needs a pi bond but has no "
+                           "needing neighbour): result must be None"})
+    for n in range(1, ni + 1):
+        others = list(range(1, n))
+        for k in (0, 1, 2, 3):
+            for nb0 in itertools.combinations(others, k):
+                tasks.append(("matching/with-isolated-nodes", ("graphs0", n, nb0)))
     nc, kc = (16, 4) if thorough else (12, 4)
     scopes.append({"name": "matching/chain+chords", "n": "4..%d (even)" % nc, "chords": "every set of <= %d" % kc,
                    "degree": "<= 3"})
@@ -457,7 +466,7 @@ def run(task):
     r = Result()
     kind = arg[0]
     last = None
-    if kind in ("graphs", "chords", "graphs9"):
+    if kind in ("graphs", "chords", "graphs9", "graphs0"):
         fpm = _fpm()
         if fpm is None:
             r.caps.append("selfies.utils.matching_utils.find_perfect_matching not found (seam 1 skipped)")
@@ -468,6 +477,13 @@ def run(task):
                 r.states += 1
                 check_graph(adj, r, fpm, rot)
             r.sample({"scope": scope, "n": n, "neighbours_of_node_0": list(nb0)}, 1)
+        elif kind == "graphs0":
+            _, n, nb0 = arg
+            for adj in graphs_with_first(n, 3, nb0, mindeg=0):
+                if n > 1 and min(map(len, adj)) > 0:
+                    continue            # already covered by the degree >= 1 scope
+                r.states += 1
+                check_graph(adj, r, fpm, False)
         elif kind == "graphs9":
             _, nb0 = arg
             for adj in graphs_with_first(9, 3, nb0):
